@@ -87,6 +87,20 @@ failed statement was started; not-recorded; budget: at most N failures and no st
 rules; then the following builds.  buildFK sits on the re-scanning loop (dirty_now): these graphs get no input-less phony
 statement (an input-less phony statement is given a source input).
 
+DYNDEP (coq/Engine/HistDyndepDefs.v ybuild_f, theorems in Properties_C11hist.v; dyn=True, props/c11.py): graphs with a dyndep
+file (engine.add_dyndep: a source, or produced by a statement; bound at rule or build level; the file adds implicit inputs,
+implicit outputs, restat), fixed over the history.  The model line carries the manifest WITHOUT the dyndep information and the
+ground truth of the file (Y=); `hist_run histy`; a dyndep file has a fixed content on both sides.  A Build is ybuild_f
+(CleanNode-faithful); ybuild is run next to it (old=).  Compared with the exact rules: accepted / refused (a missing source
+dyndep file: "loading ...") / FAILED mid-build (a load made the re-scan fail: non-zero exit after commands were started; the
+states are compared as they are), run set, order (also after the dyndep file's producer and the producers of dyndep-added
+inputs), exists / clean (the clean build of the inlined graph, engine.py clean_contents) / log / times also for the
+dyndep-added outputs, idle.  selfcheck where the premises of C11_equiv hold (frag_ABY, the inlined graph in fragment AB and
+topologically ordered, no input-less phony, dd_ins_ordered, no_late_restat, hist_present_y): the inlined manifest through
+HistFaithful.build_f is in the SAME state after every build (eqi) -- where no_late_restat is false the listed finding
+dyndep-restat-known-late shows as "engine = ybuild_f, the inlined manifest runs less": counted.  Counted: dyndep files loaded
+at scan time (model: scan_loads) / mid-build (engine: the file's producer ran in this build).
+
 RECORDED DEPENDENCIES (coq/Engine/HistDepsDefs.v dbuild, theorems in Properties_C10hist.v; used by props/c10.py): graphs
 of fragment ABD = AB + statements with deps = gcc whose commands read HIDDEN files (sources, also ones the manifest never
 mentions, and generated files) and report them through a depfile that ninja moves into the deps log.  gen_graph's msvc /
@@ -177,18 +191,19 @@ def gcc_only(g, keep_depfile=False):
             e.deps = ''; e.depfile = ''; e.hidden = []
     return g
 
-def gen_history(rnd, sid, outside=False, dry=0.0, fault=False, deps=False, par=False):
+def gen_history(rnd, sid, outside=False, dry=0.0, fault=False, deps=False, par=False, dyn=False):
     """dry: probability that a build is preceded by a dry run of the same targets (and of a dry run on its own);
     fault: exactly one build of the history carries faults (-j1 -k1)"""
     feat = dict(FEAT)
     if outside: feat['validations'] = 0.6
     wf_reads = True
     if deps: feat['deps'] = 0.6; wf_reads = rnd.random() < 0.75
+    if dyn: feat['dyndep'] = 1.0
     g = strip_graph(engine.gen_graph(rnd, rnd.randrange(3, 13) if par else (rnd.randrange(3, 11) if fault == 'k' else rnd.randrange(2, 10)), feat, wf_reads),
                     rnd, no_inputless_phony=(fault == 'k'))
     if deps: gcc_only(g, keep_depfile=(deps == 'depfile'))
     h = ec.Hist(sid, g)
-    h.deps_mode = bool(deps); h.depfile_mode = (deps == 'depfile'); h.wf_reads = wf_reads; h.par_mode = bool(par)
+    h.deps_mode = bool(deps); h.depfile_mode = (deps == 'depfile'); h.dyn_mode = bool(dyn); h.wf_reads = wf_reads; h.par_mode = bool(par)
     fstate = dict(todo=fault)
     allouts = [o for e in g.edges for o in e.outs]
     used_sources = sorted({i for e in g.edges for i in e.manifest_ins() + e.vals if i in g.sources})
@@ -282,7 +297,7 @@ def gen_history(rnd, sid, outside=False, dry=0.0, fault=False, deps=False, par=F
                 o = rnd.choice(de).out0
                 h.add(ec.Step('edit', 'step edit %s %s' % (hx(o), hx('tampered.%d' % rnd.randrange(1000000))), path=o)); h.tags.add('tampered output')
         elif r < 0.35:
-            sname = rnd.choice(hidden_sources) if hidden_sources and rnd.random() < 0.4 else rnd.choice(sorted(g.sources))
+            sname = rnd.choice(hidden_sources) if hidden_sources and rnd.random() < 0.4 else rnd.choice(sorted(x for x in g.sources if not (dyn and x in g.dd_info)) or sorted(g.sources))
             h.edit(sname, 'common' if rnd.random() < 0.15 else '%s.%d' % (sname, rnd.randrange(1000000)))
         elif r < 0.45:
             ex = sorted(x for x in g.sources if x in h.sources)
@@ -294,7 +309,7 @@ def gen_history(rnd, sid, outside=False, dry=0.0, fault=False, deps=False, par=F
                 sname = rnd.choice(ex); del h.sources[sname]
                 h.add(ec.Step('rm', 'step rm %s' % hx(sname), path=sname)); h.tags.add('rm-source')
         elif r < 0.68 and ne:
-            e = rnd.choice(ne); o = rnd.choice(e.outs); h.add(ec.Step('rm', 'step rm %s' % hx(o), path=o)); h.tags.add('rm-output')
+            e = rnd.choice(ne); o = rnd.choice(g.eff_outs(e)); h.add(ec.Step('rm', 'step rm %s' % hx(o), path=o)); h.tags.add('rm-output')
         elif ne:
             e = rnd.choice(ne); e.ver += 1; h.rewrite_manifest()
             h.steps[-1].edge = e.idx
@@ -303,7 +318,8 @@ def gen_history(rnd, sid, outside=False, dry=0.0, fault=False, deps=False, par=F
             if rnd.random() < 0.5: repeat(st)
     # a removed source comes back more often than not, so that the final builds are accepted
     for sname in sorted(g.sources):
-        if sname not in h.sources and rnd.random() < 0.7: h.edit(sname, '%s.%d' % (sname, rnd.randrange(1000000)))
+        if sname not in h.sources and rnd.random() < 0.7:
+            h.edit(sname, g.sources[sname] if (dyn and sname in g.dd_info) else '%s.%d' % (sname, rnd.randrange(1000000)))
     last = True
     st = do_build(); repeat(st)
     return h
@@ -448,10 +464,16 @@ class Map:
         for e in g.edges:
             for p in e.hidden:
                 if p not in s.names: s.names.append(p)
+        s.dyn_mode = bool(getattr(h, 'dyn_mode', False))
+        for dd, info in sorted(g.dd_info.items()):
+            for out0, (io, ii, rs) in sorted(info.items()):
+                for p in [dd] + io + ii:
+                    if p not in s.names: s.names.append(p)
+        s.id = {p: i for i, p in enumerate(s.names)}
         s.deps_mode = bool(getattr(h, 'deps_mode', False)); s.par_mode = bool(getattr(h, 'par_mode', False))
         s.trace = list(ec.pair(h, builds)) if builds else []
         s.depfile_mode = bool(getattr(h, 'depfile_mode', False))
-        s.mode = 'histf' if s.depfile_mode else ('histd' if s.deps_mode else 'hist')
+        s.mode = 'histy' if s.dyn_mode else ('histf' if s.depfile_mode else ('histd' if s.deps_mode else 'hist'))
         s.dfile = {e.depfile: k for k, e in enumerate(g.edges) if e.depfile and not e.deps}      # depfile path -> position
         s.by_out0 = {e.out0: k for k, e in enumerate(g.edges)}      # out0 -> position
         s.cid = {}                                                   # content string -> number
@@ -583,6 +605,21 @@ class Map:
                 else: S.append('b' + t)
             else:
                 raise ValueError('step kind %s is outside the model' % st.kind)
+        if s.dyn_mode:
+            # the ground truth of the dyndep files: per file (in dependency order) the bound statements with what the file gives them
+            Y = []
+            for dd in sorted(g.dd_info, key=lambda d: s.names.index(d)):
+                sts = []
+                for pos, e in enumerate(g.edges):
+                    if e.dyndep == dd and e.out0 in g.dd_info[dd]:
+                        io, ii, rs = g.dd_info[dd][e.out0]
+                        sts.append('%d~%s~%s~%d' % (s.num[pos], j(ii), j(io), 1 if rs else 0))
+                Y.append('%d:%s' % (ID[dd], '/'.join(sts)))
+            # nodes only a dyndep file names as inputs: created by the loader, a missing one is "dirty", not an error
+            mentioned = {p for e in g.edges for p in e.exp + e.imp + e.oo + e.outs + e.vals}
+            dyn_outs = {o for info in g.dd_info.values() for (io, ii, rs) in info.values() for o in io}
+            L = ','.join(str(ID[p]) for p in s.names if p not in mentioned and p not in dyn_outs) or '-'
+            return 'N=%d E=%s L=%s Y=%s S=%s' % (len(s.names), ';'.join(E) or '-', L, ';'.join(Y) or '-', ','.join(S) or '-')
         if not s.deps_mode: return 'N=%d E=%s L=- S=%s' % (len(s.names), ';'.join(E) or '-', ','.join(S) or '-')
         mentioned = {p for e in g.edges for p in e.exp + e.imp + e.oo + e.outs + e.vals}
         L = ','.join(str(ID[p]) for p in s.names if p not in mentioned) or '-'
@@ -623,6 +660,9 @@ def parse_model(out, m):
         builds.append(dict(what=bl.split()[0], df=df, ok=kv['ok'] == '1', raw=raw, run=[m.order[x] for x in raw], nodes=nodes, old=old, oldok=kv.get('oldok', kv['ok']) == '1',
                            ts=kv.get('ts', '1') == '1', tss=kv.get('tss', kv.get('ts', '1')) == '1', failed=kv.get('failed') == '1',
                            hit=kv.get('hit') == '1', exit=int(kv['exit']) if 'exit' in kv else None,
+                           oldres=kv.get('oldres'), sl=None if 'sl' not in kv else ([] if kv['sl'] == '-' else [m.names[int(x)] for x in kv['sl'].split('+')]),
+                           iok=kv.get('iok') == '1', irun=None if 'irun' not in kv else ([] if kv['irun'] == '-' else [m.order[int(x)] for x in kv['irun'].split('+')]),
+                           eqi=kv.get('eqi') == '1',
                            res=kv.get('res'), acc=int(kv['acc']) if 'acc' in kv else None, bf=bf, bfok=kv.get('bfok') == '1', conf=kv.get('conf') == '1',
                            fe=None if kv.get('fe', '-') == '-' else m.order[int(kv['fe'].split('+')[-1])],
                            fes=[] if kv.get('fe', '-') == '-' else [m.order[int(x)] for x in kv['fe'].split('+')],
@@ -643,6 +683,23 @@ def through_phony(g, prod, i, depth=0):
         if depth > 60: return []
         return [x for j in p.exp + p.imp + p.oo for x in through_phony(g, prod, j, depth + 1)]
     return [p]
+
+def tainted_dyn(g, sources):
+    """(dyndep model only: ybuild_f RE-SCANS at a mid-build load)  positions of the real statements at or below a real statement
+    that is dirty in EVERY scan -- it reads an input-less phony name (directly or through phony aliases) or a missing source that
+    only a dyndep file names -- following non-order-only inputs, dyndep-added inputs and the binding to a dyndep file"""
+    mentioned = {p for e in g.edges for p in e.exp + e.imp + e.oo + e.outs}
+    ad = {x for e in g.edges for x in g.eff_imp(e) if x in g.sources and x not in sources and x not in mentioned}
+    for e in g.edges:
+        if e.phony and (not e.manifest_ins() or any(i in ad for i in e.exp + e.imp)): ad |= set(e.outs)
+    tn = set(); res = set()
+    for k, e in enumerate(g.edges):
+        nonoo = e.exp + g.eff_imp(e) + ([e.dyndep] if e.dyndep else [])
+        if any(i in tn for i in nonoo) or (not e.phony and any(i in ad for i in nonoo)):
+            tn |= set(g.eff_outs(e))
+            if not e.phony: res.add(k)
+        elif e.phony and any(i in tn for i in nonoo): tn |= set(e.outs)
+    return res
 
 def depends_on(g, f):
     """positions of the statements that depend on an output of statement f (transitively, inputs of every kind)"""
@@ -670,7 +727,16 @@ def compare_build(h, m, st, b, mb, prev_ok_same, nip, cnt, prev=None, flags=None
         e_started = [engine.uh(ev[2]) for ev in b.events if ev[0] == 'st' and ev[1] == 'started']
     e_failed = [o for o, c in b.finished if c != 0] if kind != 'dry' else []
     e_ok = (b.exit == 0) or bool(e_failed)               # accepted by the scan (a failing build was accepted, then failed)
-    refused = (b.exit not in (0, None)) and not e_started and 'missing and no known rule' in (b.err or '')
+    refused = (b.exit not in (0, None)) and not e_started and ('missing and no known rule' in (b.err or '') or (m.dyn_mode and "loading '" in (b.err or '')))
+    midfail = m.dyn_mode and kind == 'plain' and b.exit not in (0, None) and bool(e_started) and not e_failed
+    if midfail or (m.dyn_mode and mb.get('res') == 'failed'):
+        # a dyndep file loaded mid-build made the re-scan fail (a missing input it names, a cycle): non-zero exit after commands ran
+        if midfail and mb.get('res') == 'failed':
+            # Builder::FinishCommand returns when Plan::EdgeFinished (the dyndep load) fails, BEFORE BuildLog::RecordCommand: the command
+            # that produced the dyndep file succeeded and is NOT recorded; the model has recorded it (reported).  Files are still
+            # compared for this build, the logs are not, and the history ends here.
+            cnt['builds that failed in a mid-build dyndep load, on both sides'] += 1; e_ok = True; flags['cut'] = True
+        else: bad.append(('midbuild-failure', 'engine: exit=%s "%s" after starting %s; model: %s' % (b.exit, (b.err or '')[:80], e_started, mb.get('res'))))
     if kind == 'kill':
         # the child's events died with it: acceptance is that of the reference run, the commands started are those the
         # classification of the dump found complete, plus the one the kill fell into once it had been spawned
@@ -691,7 +757,7 @@ def compare_build(h, m, st, b, mb, prev_ok_same, nip, cnt, prev=None, flags=None
         if not mb['hit']: bad.append(('intr-hit', 'model: the interrupted statement %s is not started' % g.edges[m.intr[0]].out0))
         cnt['interrupts compared'] += 1
         if m.intr[1]: cnt['interrupts compared: the running command had modified its outputs'] += 1
-    elif b.exit != 0 and not refused and not (kind == 'fault' and e_failed):
+    elif b.exit != 0 and not refused and not (kind == 'fault' and e_failed) and not midfail:
         bad.append(('engine', 'the engine ended with exit=%s "%s" after starting %s: neither success nor a refusal%s' % (
             b.exit, (b.err or '')[:100], e_started, '' if kind != 'fault' else ' nor a failed command')))
     if e_ok != mb['ok']:
@@ -703,6 +769,11 @@ def compare_build(h, m, st, b, mb, prev_ok_same, nip, cnt, prev=None, flags=None
     if len(set(e_run)) != len(e_run): bad.append(('run-set', 'engine started a command twice: %s' % e_started))
     if e_run != m_run:
         if kind == 'dry': bad.append(('dry-list', 'commands listed by -n: engine %s, model %s' % (nm(e_run), nm(m_run))))
+        elif m.dyn_mode and set(e_run) <= set(m_run) and (set(m_run) - set(e_run)) <= tainted_dyn(g, st.sources):
+            # DEVIATION of ybuild_f (reported): the re-scan at a mid-build dyndep load judges an always-dirty statement that has
+            # already run dirty AGAIN and re-wants what ninja's CleanNode cascade has pruned
+            cnt['builds where ybuild_f re-ran statements ninja pruned at or below an always-dirty one (deviation of the mid-build re-scan)'] += 1
+            cnt['... statements re-run by ybuild_f only'] += len(set(m_run) - set(e_run))
         else:
             bad.append(('run-set', 'commands %s: engine %s, model %s' % ('started' if kind == 'fault' else 'run', nm(e_run), nm(m_run))))
     # the model's order is the statement order; the engine's must respect the dependencies
@@ -723,11 +794,11 @@ def compare_build(h, m, st, b, mb, prev_ok_same, nip, cnt, prev=None, flags=None
         for o in e_started:
             e = prod.get(o)
             if e is None: continue
-            for i in e.exp + e.imp + e.oo:
+            for i in e.exp + g.eff_imp(e) + e.oo:
                 for p in through_phony(g, prod, i):
                     if p.out0 in sta and p is not e and not (p.out0 in fin and fin[p.out0] < sta[o]):
                         bad.append(('order', '%s started before %s (producer of its input %s) finished successfully' % (o, p.out0, i)))
-    if mb['what'] != 'P' and mb['raw'] != sorted(mb['raw']): bad.append(('selfcheck', 'model trace/listing not in statement order: %s' % mb['raw']))
+    if mb['what'] != 'P' and not m.dyn_mode and mb['raw'] != sorted(mb['raw']): bad.append(('selfcheck', 'model trace/listing not in statement order: %s' % mb['raw']))
     if mb['what'] == 'P':
         evs = [ev for ev in b.events if ev[0] in ('start', 'finish') and ev[1] in m.by_out0]
         cnt['schedule events given to the model'] += len(evs)
@@ -752,12 +823,12 @@ def compare_build(h, m, st, b, mb, prev_ok_same, nip, cnt, prev=None, flags=None
         # (HistFaithfulProofs.build_f_trace_subset); they differ where dirty_now's re-scan re-runs what CleanNode prunes
         if mb['oldok'] != mb['ok']: bad.append(('selfcheck', 'model: build_f ok=%s, build ok=%s from the same state' % (mb['ok'], mb['oldok'])))
         it = iter(mb['old'])
-        if mb['what'] == 'B' and not all(x in it for x in mb['run']): bad.append(('selfcheck', 'model: build_f ran %s, no sub-sequence of what build runs %s' % (mb['run'], mb['old'])))
+        if mb['what'] == 'B' and not m.dyn_mode and not all(x in it for x in mb['run']): bad.append(('selfcheck', 'model: build_f ran %s, no sub-sequence of what build runs %s' % (mb['run'], mb['old'])))
         if mb['old'] != mb['run']:
-            lab = {'B': 'HistDefs.build / dbuild / fbuild', 'F': 'HistFailDefs.buildF_full', 'K': 'HistCrashDefs.buildK_full', 'I': 'HistCrashDefs.buildI_full'}[mb['what']]
+            lab = {'B': 'HistDefs.build / dbuild / fbuild / ybuild', 'F': 'HistFailDefs.buildF_full', 'K': 'HistCrashDefs.buildK_full', 'I': 'HistCrashDefs.buildI_full'}[mb['what']]
             cnt['builds where the original loop (%s) differs from the CleanNode-faithful one (and from ninja)' % lab] += 1
             cnt['... statements the original loop alone would run'] += max(0, len(mb['old']) - len(mb['run']))
-            if nip and not m.deps_mode: bad.append(('selfcheck', 'model: build_f and build differ with no_inputless_phony (build_f_eq_build): %s vs %s' % (mb['run'], mb['old'])))
+            if nip and not m.deps_mode and not m.dyn_mode: bad.append(('selfcheck', 'model: build_f and build differ with no_inputless_phony (build_f_eq_build): %s vs %s' % (mb['run'], mb['old'])))
     # failing build: exit status, which statement, containment, nothing recorded
     if kind == 'fault':
         if bool(e_failed) != mb['failed']:
@@ -797,7 +868,12 @@ def compare_build(h, m, st, b, mb, prev_ok_same, nip, cnt, prev=None, flags=None
     # per node
     try: exp = g.clean_contents(st.sources)
     except RecursionError: exp = None
+    drift_out = set()
+    if m.dyn_mode:
+        flags.setdefault('drift', set()).update(tainted_dyn(g, st.sources) if (set(m_run) - set(e_run)) else set())
+        drift_out = {o for k_ in flags['drift'] for o in g.eff_outs(g.edges[k_])}
     for n in m.names:
+        if n in drift_out: continue
         mx, mq = mb['nodes'][n][:2]
         ex = n in b.files
         if ex != mx: bad.append(('exists', '%s after the build: engine %s, model %s' % (n, 'exists' if ex else 'missing', 'exists' if mx else 'missing')))
@@ -809,11 +885,11 @@ def compare_build(h, m, st, b, mb, prev_ok_same, nip, cnt, prev=None, flags=None
     # recorded mtime against the output's own mtime and against every non-order-only input's; output against input
     sgn = lambda a, b: (a > b) - (a < b)
     for k, e in enumerate(g.edges):
-        if e.phony: continue
+        if e.phony or (m.dyn_mode and (k in flags.get('drift', ()) or flags.get('cut'))): continue
         sn = b.snap.get(e.out0)
         if sn and sn.get('hash'): m.known_hash[e.eval_command()] = int(sn['hash'], 16)
         cur = m.known_hash.get(e.eval_command())
-        for o in e.outs:
+        for o in g.eff_outs(e):
             el = b.log.get(o); mn = mb['nodes'][o]; ml = mn[4]
             if (el is not None) != (ml is not None):
                 bad.append(('log', 'build log entry of %s: engine %s, model %s' % (o, 'present' if el else 'absent', 'present' if ml else 'absent'))); continue
@@ -821,7 +897,7 @@ def compare_build(h, m, st, b, mb, prev_ok_same, nip, cnt, prev=None, flags=None
             cnt['log entries compared'] += 1
             if cur is not None and (int(el[0], 16) == cur) != (ml[0] == m.hash_of(k, e)):
                 bad.append(('log', 'log entry of %s carries the current command hash: engine %s, model %s' % (o, int(el[0], 16) == cur, ml[0] == m.hash_of(k, e))))
-            rd = sorted(set(e.exp + e.imp + (e.hidden if (e.deps or e.depfile) else [])))
+            rd = sorted(set(e.exp + g.eff_imp(e) + (e.hidden if (e.deps or e.depfile) else [])))
             rel = [(o, 'log', o)] + [(i, 'log', o) for i in rd] + [(i, 'file', o) for i in rd]
             for i, what, _ in rel:
                 if i not in b.files or mb['nodes'][i][3] is None or (what == 'file' and (o not in b.files or mn[3] is None)): continue
@@ -884,7 +960,23 @@ def compare_build(h, m, st, b, mb, prev_ok_same, nip, cnt, prev=None, flags=None
                 cnt['successful builds with stale files of another shape (side conditions false: hro=%s nru=%s hp=%s nip=%s)' % (flags['hro'], flags['nru'], flags['hp'], nip)] += 1
         if unclean and flags['hro'] and flags['nru'] and flags['hp'] and nip:
             bad.append(('selfcheck', 'model: %s needed by the targets of an accepted build, all side conditions true: not clean (C10_equiv + C01_history)' % sorted(unclean)))
-    if not m.deps_mode and mb['ok'] and kind in ('plain', 'fault') and not mb['failed']:
+    if m.dyn_mode and kind == 'plain':
+        prem = all(flags.get(k_, True) for k_ in ('frag', 'fragi', 'topo', 'ddo', 'nlr', 'hp')) and nip
+        if mb['sl'] is not None:
+            cnt['dyndep files loaded at scan time (model: scan_loads)'] += len(mb['sl'])
+            for dd in g.dd_info:
+                p_ = prod.get(dd)
+                if p_ is not None and p_.out0 in e_started: cnt['dyndep files loaded mid-build (engine: the file\'s producer ran in this build)'] += 1
+        if mb['res'] == 'done' and mb['iok']:
+            if sorted(mb['irun']) != sorted(mb['run']):
+                cnt['builds where the inlined manifest runs other commands than the dyndep one (model; premises of C11_equiv false: ddo=%s nlr=%s hp=%s nip=%s)' % (flags.get('ddo'), flags.get('nlr'), flags.get('hp'), nip)] += 1
+                late = [k_ for k_ in set(mb['run']) - set(mb['irun']) if g.edges[k_].dyndep and g.dd_info.get(g.edges[k_].dyndep, {}).get(g.edges[k_].out0, ([], [], False))[2] and not g.edges[k_].restat]
+                if late and not flags.get('nlr', True) and e_run == m_run:
+                    cnt['builds with a statement re-run because its restat came from a dyndep file loaded mid-build (id=dyndep-restat-known-late, identical on engine and model)'] += 1
+        if prem and mb['res'] == 'done':
+            if not mb['eqi']: bad.append(('selfcheck', 'model: the dyndep manifest and the inlined manifest are in different states although the premises of C11_equiv hold'))
+            if sorted(mb['irun']) != sorted(mb['run']): bad.append(('selfcheck', 'model: inlined manifest ran %s, dyndep manifest %s (premises of C11_equiv hold)' % (nm(mb['irun']), nm(mb['run']))))
+    if not m.deps_mode and mb['ok'] and kind in ('plain', 'fault') and not mb['failed'] and not (m.dyn_mode and (mb['res'] != 'done' or not all(flags.get(k_, True) for k_ in ('ddo', 'nlr', 'hp')))):
         targets = st.targets or ec.default_targets(g)
         unclean = [n for n in sorted(g.closure(targets, with_vals=False)) if n in mb['nodes'] and not mb['nodes'][n][1]]
         if kind == 'plain' and not mb['ts'] and prev is not None and prev[2] == 'kill':
@@ -894,7 +986,9 @@ def compare_build(h, m, st, b, mb, prev_ok_same, nip, cnt, prev=None, flags=None
         if unclean and not mb['ts'] and b.exit == 0 and all(n not in b.files or exp is None or b.files[n][1] != exp.get(n) for n in unclean):
             cnt['successful builds that kept what a failed command wrote (id=failed-cmd-rewrote-output, identical on both sides)'] += 1
     if kind == 'dry': cnt['dry runs compared'] += 1; cnt['commands listed by dry runs (engine)'] += len(e_started)
-    if prev_ok_same and m.deps_mode and not (flags['hro'] and flags['nru'] and flags['hp']):
+    if prev_ok_same and m.dyn_mode and not (flags.get('hp', True) and flags.get('nlr', True) and flags.get('ddo', True) and nip):
+        if e_started and e_run == m_run: cnt['repeated builds that ran commands again, identically on both sides (premises false)'] += 1
+    elif prev_ok_same and m.deps_mode and not (flags['hro'] and flags['nru'] and flags['hp']):
         # no convergence theorem where the side conditions fail (the statement pruned by the restat finding catches up in the next
         # build): the run-set rule above has already compared the two sides
         if e_started and e_run == m_run: cnt['repeated builds that ran commands again, identically on both sides (side conditions false)'] += 1
@@ -903,7 +997,7 @@ def compare_build(h, m, st, b, mb, prev_ok_same, nip, cnt, prev=None, flags=None
         if e_started or b.exit != 0: bad.append(('idle', 'engine: the build repeated after an accepted one started %s exit=%s' % (e_started, b.exit)))
     return bad
 
-def check(ctx, seed, n, keep=None, dry=0.0, fault=False, deps=False, par=False):
+def check(ctx, seed, n, keep=None, dry=0.0, fault=False, deps=False, par=False, dyn=False):
     """n random histories inside the fragment through the real engine and through the extracted model.
     dry: probability of dry runs before builds; fault: every history has one failing invocation; deps: fragment ABD
     (deps = gcc statements with hidden reads), the recorded-deps model.
@@ -911,7 +1005,7 @@ def check(ctx, seed, n, keep=None, dry=0.0, fault=False, deps=False, par=False):
     rnd = random.Random(seed * 1000003 + 4242)
     hists = []
     for i in range(n):
-        hists.append(gen_history(rnd, 'HIST_%d_%d' % (seed, i), outside=rnd.random() < OUTSIDE_RATE, dry=dry, fault=fault, deps=deps, par=par))
+        hists.append(gen_history(rnd, 'HIST_%d_%d' % (seed, i), outside=rnd.random() < OUTSIDE_RATE, dry=dry, fault=fault, deps=deps, par=par, dyn=dyn))
     return compare_hists(hists, keep)
 
 def compare_hists(hists, keep=None):
@@ -921,7 +1015,7 @@ def compare_hists(hists, keep=None):
     # comparing what it left with the same build run to its end (the reference scenario)
     maps = [Map(h, tr.get(h.sid), tr.get(getattr(h, 'kill_ref', None))) for h in hists]
     mouts = [None] * len(maps)
-    for mode in ('hist', 'histd', 'histf'):
+    for mode in ('hist', 'histd', 'histf', 'histy'):
         idx = [i for i, m in enumerate(maps) if m.mode == mode]
         if idx:
             for i, o in zip(idx, run_model([maps[i].line for i in idx], mode=mode)): mouts[i] = o
@@ -954,9 +1048,9 @@ def compare_hists(hists, keep=None):
         if reordered: st_['histories whose statements are numbered by ninja\'s schedule of the failing build'] += 1
         if reordered and r['frag'] and not r['topo']:
             mism.append(Mismatch(h.sid, 'order', 'ninja\'s schedule of the failing build is no dependency order: model order %s' % m.order, replay())); continue
-        if not (r['frag'] and r['topo'] and r.get('fragi', True)):
+        if not (r['frag'] and r['topo'] and (r.get('fragi', True) or m.dyn_mode)):
             st_['outside the fragment (model verdict)'] += 1
-            if not r['frag']: st_['outside: frag_AB%s false' % ('D' if m.deps_mode else '')] += 1
+            if not r['frag']: st_['outside: frag_AB%s false' % ('Y' if m.dyn_mode else ('D' if m.deps_mode else ''))] += 1
             if not r['topo']: st_['outside: topo_ordered false'] += 1
             if not r.get('fragi', True): st_['outside: frag_AB of the inlined manifest false'] += 1
             continue
@@ -967,7 +1061,11 @@ def compare_hists(hists, keep=None):
         prs = ec.pair(h, bs)
         if len(prs) != len(r['builds']) or len(prs) != sum(1 for s in h.steps if s.kind == 'build'):
             mism.append(Mismatch(h.sid, 'mapping', 'engine ran %d builds, model %d' % (len(prs), len(r['builds'])), replay())); continue
-        bad = []; prev = None; flags = {k: r.get(k, True) for k in ('hro', 'nru', 'hp')}; pending_dry = None
+        bad = []; prev = None; flags = {k: r.get(k, True) for k in ('hro', 'nru', 'hp', 'frag', 'fragi', 'topo', 'ddo', 'nlr', 'ads')}; pending_dry = None
+        if m.dyn_mode:
+            st_['histories with a produced dyndep file'] += 0 if r.get('ads') else 1
+            for k_, lab in (('fragi', 'frag_AB of the inlined manifest (a dyndep input the manifest does not mention)'), ('ddo', 'dd_ins_ordered'), ('nlr', 'no_late_restat'), ('hp', 'hist_present_y')):
+                if not r.get(k_, True): st_['inside, %s false' % lab] += 1
         if getattr(h, 'kill_ref', None): flags['ref'] = tr[h.kill_ref][-1]
         if m.deps_mode:
             if any(e.deps and e.hidden for e in h.g0.edges): st_['histories with a deps statement that has hidden reads'] += 1
@@ -1000,6 +1098,7 @@ def compare_hists(hists, keep=None):
             st_['node comparisons'] += len(m.names)
             for kd, text in compare_build(h, m, st, b, mb, rep, r['nip'], st_, prev, flags, kind):
                 bad.append((kd, 'build %d: %s' % (k, text)))
+            if flags.get('cut'): st_['histories cut short after a mid-build dyndep load failure (the engine does not record the successful producer)'] += 1; break
             # the commands of a real build that follows a dry run of the same targets at once are among the listed ones
             # (C19_dry_superset; equality when nothing is pruned is C19_dry_difference_exact)
             if pending_dry is not None and kind == 'plain' and pending_dry[0] == h.steps.index(st) - 1 and pending_dry[1] == st.targets and mb['ok'] and b.exit == 0:
@@ -1070,7 +1169,7 @@ def finish_proof_check(ctx, handle):
     ctx.proof['theorems'] = ctx.proof.get('theorems', []) + names
     ctx.proof['print_assumptions'] = ctx.proof['print_assumptions'] + ['%s: %d theorems closed under the global context' % (HISTRUN_V, closed)]
 
-def hook(ctx, pid, dry=0.0, fault=False, deps=False, par=False, quick=400, thorough=5000, key='hist_model'):
+def hook(ctx, pid, dry=0.0, fault=False, deps=False, par=False, dyn=False, quick=400, thorough=5000, key='hist_model'):
     """called by props/c01.py, c02.py (plain histories), c19.py (dry=..: dry runs interleaved), c05.py (fault=True: one
     failing invocation per history), c10.py (deps=True: fragment ABD, the recorded-deps model) after the property's own runs"""
     if not ctx.model: return         # the model did not build: already reported as a broken obligation
@@ -1086,14 +1185,14 @@ def hook(ctx, pid, dry=0.0, fault=False, deps=False, par=False, quick=400, thoro
         return
     handle = start_proof_check(ctx)
     n = quick if ctx.quick() else thorough
-    mism, stats = check(ctx, ctx.seed * 31 + int(pid[1:]) + (500 if par else 0) + (700 if deps == 'depfile' else 0) + (900 if fault == 'k' else 0), n, dry=dry, fault=fault, deps=deps, par=par)
+    mism, stats = check(ctx, ctx.seed * 31 + int(pid[1:]) + (500 if par else 0) + (700 if deps == 'depfile' else 0) + (900 if fault == 'k' else 0) + (1100 if dyn else 0), n, dry=dry, fault=fault, deps=deps, par=par, dyn=dyn)
     finish_proof_check(ctx, handle)
     for x in mism[:5]:
         ctx.corr_broken.append('history model (HistDefs) differs from ninja in scenario %s [%s]: %s' % (x.sid, x.kind, x.text[:600]))
         ctx.replay_file('hist-mismatch', x.replay)
     if len(mism) > 5: ctx.corr_broken.append('history model (HistDefs): %d more mismatching histories' % (len(mism) - 5))
-    ctx.cov['hist_model_correspondence' + ('_parallel' if par else '') + ('_depfile' if deps == 'depfile' else '') + ('_keepgoing' if fault == 'k' else '')] = stats
-    extra = [k for k in stats if k.startswith(('dry runs', 'failing builds', 'commands listed', 'successful builds', '... where', 'histories whose statements', 'builds where the original', '... statements', 'keep-going', 'statements skipped', 'schedule', 'builds with at',
+    ctx.cov['hist_model_correspondence' + ('_parallel' if par else '') + ('_depfile' if deps == 'depfile' else '') + ('_keepgoing' if fault == 'k' else '') + ('_dyndep' if dyn else '')] = stats
+    extra = [k for k in stats if k.startswith(('dry runs', 'failing builds', 'commands listed', 'successful builds', '... where', 'histories whose statements', 'builds where the original', '... statements', 'keep-going', 'statements skipped', 'dyndep files', 'builds that failed in a mid', 'builds where ybuild_f', '... statements re-run by ybuild_f', 'histories cut short after', 'repeated builds that ran', 'builds with a statement re-run', 'builds where the inlined', 'histories with a produced', 'schedule', 'builds with at',
                                                'deps records', 'inside, ', 'histories cut short', 'histories with a dep', 'histories mixing', 'depfiles', 'builds where fbuild', 'histories with rm-depfile'))]
     ctx.cov.setdefault('distribution', {})[key] = {k: stats.get(k, 0) for k in extra + [
         'histories', 'inside the fragment', 'outside the fragment (model verdict)',
@@ -1153,7 +1252,7 @@ if __name__ == '__main__':
         for k in sorted(stats): print('%-60s %s' % (k, stats[k]))
         for x in mism[:10]: print('MISMATCH', x)
         print('%d bases, %d mismatching, %.1fs' % (n, len(mism), time.time() - t0)); sys.exit(1 if mism else 0)
-    mism, stats = check(None, seed, n, keep=keep, dry=dry, fault=('k' if '--keepgoing' in a else '--fault' in a), deps=('depfile' if '--depfile' in a else '--deps' in a), par='--par' in a)
+    mism, stats = check(None, seed, n, keep=keep, dry=dry, fault=('k' if '--keepgoing' in a else '--fault' in a), deps=('depfile' if '--depfile' in a else '--deps' in a), par='--par' in a, dyn='--dyndep' in a)
     for k in sorted(stats): print('%-60s %s' % (k, stats[k]))
     for x in mism[:10]:
         print('MISMATCH', x)
